@@ -514,6 +514,33 @@ func (t *trieRun) genCase(c *Ctx, r *RNG, id string) *TrieCase {
 			tc.IDs, tc.VKind = genValueIDs(r, len(keys), VDistinct), vkindNames[VDistinct]
 			tc.Queries = genQueries(r, tc.Keys, t.qbudget)
 		}
+		if r.Intn(16) == 3 {
+			// directed: a 257-bit node all of whose branch bytes share their high half-byte (the keys
+			// first differ in the LOW half of a byte, and more than ten of them do)
+			h := byte(r.Intn(16)) << 4
+			pre := randBytes(r, r.Intn(3))
+			cnt := 11 + r.Intn(6)
+			perm := []int{}
+			for x := 0; x < 16; x++ {
+				perm = append(perm, x)
+			}
+			for len(perm) > cnt {
+				i := r.Intn(len(perm))
+				perm = append(perm[:i], perm[i+1:]...)
+			}
+			keys := []string{}
+			for _, x := range perm {
+				k := pre + string([]byte{h | byte(x)})
+				if r.Intn(3) == 0 {
+					k += randBytes(r, 1+r.Intn(2))
+				}
+				keys = append(keys, k)
+			}
+			sort.Strings(keys)
+			tc.Keys, tc.Kind = keys, "big-node-one-high-nibble"
+			tc.IDs, tc.VKind = genValueIDs(r, len(keys), VDistinct), vkindNames[VDistinct]
+			tc.Queries = genQueries(r, tc.Keys, t.qbudget)
+		}
 		if t.onlyKeys {
 			tc.Queries = append([]string{}, tc.Keys...)
 		}
